@@ -177,6 +177,39 @@ def extract_harness(name, crates=None, cargo_args=None, repo=None, subcmd="check
         return res, {"harness": name, "wall_s": round(time.time() - t0, 2)}
     finally:
         shutil.rmtree(out_dir, ignore_errors=True)
+        if repo != "/repo":
+            _prune_target(target_dir, crates)
+
+
+def _prune_target(target_dir, crates):
+    """A scratch tree is a new path dependency: cargo keeps one set of artifacts of the repository's crates (and of everything built on them) per path, which
+    are never used again.  Drop them after the run; the registry dependencies stay cached."""
+    import glob
+    pats = ["prometheus", "prometheus_static_metric", "prometheus-static-metric"] + [c for c in crates] + [c.replace("-", "_") for c in crates]
+    for prof in ("debug", "release"):
+        base = os.path.join(target_dir, prof)
+        if not os.path.isdir(base):
+            continue
+        shutil.rmtree(os.path.join(base, "incremental"), ignore_errors=True)
+        for sub in ("deps", ".fingerprint", "build"):
+            for pat in pats:
+                for f in glob.glob(os.path.join(base, sub, "*%s-*" % pat)) + glob.glob(os.path.join(base, sub, "lib%s-*" % pat)):
+                    if os.path.isdir(f):
+                        shutil.rmtree(f, ignore_errors=True)
+                    else:
+                        try:
+                            os.remove(f)
+                        except OSError:
+                            pass
+        # compiled doctests of scratch trees
+        for f in glob.glob(os.path.join(base, "deps", "rust_out*")) + glob.glob(os.path.join(target_dir, "doctest*")):
+            if os.path.isdir(f):
+                shutil.rmtree(f, ignore_errors=True)
+            else:
+                try:
+                    os.remove(f)
+                except OSError:
+                    pass
 
 
 def _harness_copy(hdir, repo, out_dir):
